@@ -329,3 +329,131 @@ def check(ctx):
     ad = [c for c in ta.calls(name="add_peer") if unparse(c.func) == "self.buckets[bucket_index].add_peer"]
     ctx.ob("C11-D2/FORM", len(bi) == 1 and len(ad) == 1 and dotted(ad[0].args[0]) == peer, ta.site(),
            "a contact is offered to the bucket that covers its id", func=tq)
+
+
+_base_check_c11 = check
+
+
+def check(ctx):            # noqa: F811  (extends the rules above)
+    _base_check_c11(ctx)
+    exactness(ctx, ctx.prog)
+
+
+def exactness(ctx, prog):
+    """index arithmetic, start values, and the 'always admitted / exactly when' halves of the table's operations"""
+    TRq = f"{RT}.TreeRoutingTable"
+    # --- bucket lookup
+    ki = ctx.fa(f"{TRq}._kbucket_index")
+    q = ki.fi.qualname
+    k = ki.fi.params()[1]
+    R.effect_table(ctx, "C11-D1/INDEX", ki, ["bucket.key_in_range(" + k + ")"], [
+        ("i = 0", "", "the bucket index starts at 0"),
+        ("return i", f"bucket.key_in_range({k})", "the index of the first covering bucket is returned", 0),
+        ("i += 1", f"not bucket.key_in_range({k})", "…after one step per bucket that does not cover the key"),
+    ], "bucket lookup: ")
+    lp = ki.stmts(ast.For)
+    ok = len(lp) == 1 and norm_text(lp[0].iter) == "self.buckets" and dotted(lp[0].target) == "bucket"
+    ctx.ob("C11-D1/INDEX", ok, ki.site(), "bucket lookup: buckets are visited in table order", func=q)
+    p = ki.path([ki.cfg.entry], [ki.cfg.exit], avoid=lambda n: n.kind == "return", include_exc=False)
+    ctx.ob("C11-D1/INDEX", p is None, ki.site(), "bucket lookup: every path returns an index", func=q)
+    # --- join
+    jb = ctx.fa(f"{TRq}._join_buckets")
+    q = jb.fi.qualname
+    defs = {dotted(x.targets[0]): norm_text(x.value) for x in jb.stmts(ast.Assign) if len(x.targets) == 1 and isinstance(x.targets[0], ast.Name)}
+    ok = defs.get("can_go_lower") == "bucket_index_to_pop - 1 >= 0" and defs.get("can_go_higher") == "bucket_index_to_pop + 1 < len(self.buckets)" and \
+        defs.get("bucket_index_to_pop") == "to_pop[0]" and defs.get("bucket") == "self.buckets[bucket_index_to_pop]"
+    ctx.ob("C11-D1/INDEX", ok, jb.site(), "join: a lower neighbour exists iff index − 1 >= 0, an upper one iff index + 1 < number of buckets; the bucket removed is the first empty one",
+           detail="" if ok else str({k_: v for k_, v in defs.items() if k_.startswith(("can_go", "bucket"))}), func=q, key=f"C11-D1/INDEX|{q}|neighbours")
+    ok = defs.get("midpoint") in ("(bucket.range_max - bucket.range_min) // 2 + bucket.range_min", "bucket.range_min + (bucket.range_max - bucket.range_min) // 2")
+    ctx.ob("C11-D1/INDEX", ok, jb.site(), "join: the meeting point of a two-sided join lies inside the removed bucket's range (range_min + half its width)", detail="" if ok else str(defs.get("midpoint")),
+           func=q, key=f"C11-D1/INDEX|{q}|midpoint")
+    ign = ["len(self.buckets[bucket_index_to_pop]) == 0", "len(self.buckets) == 1", "to_pop"]
+    ign += ["not " + g for g in ign]
+    for x in jb.stmts(ast.Assign):
+        t = norm_text(x)
+        want = {"self.buckets[bucket_index_to_pop - 1].range_max = midpoint": "can_go_lower and can_go_higher",
+                "self.buckets[bucket_index_to_pop + 1].range_min = midpoint": "can_go_lower and can_go_higher",
+                "self.buckets[bucket_index_to_pop - 1].range_max = bucket.range_max": "can_go_lower and not can_go_higher",
+                "self.buckets[bucket_index_to_pop + 1].range_min = bucket.range_min": "not can_go_lower and can_go_higher"}.get(t)
+        if want:
+            R.exact_gate(ctx, "C11-D1/INDEX", jb, x, want, f"join: `{t[:60]}` exactly when {want}", ignore=ign, key=f"C11-D1/INDEX|{q}|{t[:50]}")
+    # --- split
+    sp = ctx.fa(f"{TRq}._split_bucket")
+    q = sp.fi.qualname
+    defs = {dotted(x.targets[0]): norm_text(x.value) for x in sp.stmts(ast.Assign) if len(x.targets) == 1 and isinstance(x.targets[0], ast.Name)}
+    ok = defs.get("split_point") in ("old_bucket.range_max - (old_bucket.range_max - old_bucket.range_min) // 2", "old_bucket.range_min + (old_bucket.range_max - old_bucket.range_min) // 2",
+                                     "(old_bucket.range_max - old_bucket.range_min) // 2 + old_bucket.range_min") and defs.get("old_bucket") == f"self.buckets[{sp.fi.params()[1]}]"
+    ctx.ob("C11-D1/INDEX", ok, sp.site(), "split: the split point lies strictly inside the old bucket (an end minus/plus half its width)", detail="" if ok else str(defs.get("split_point")), func=q,
+           key=f"C11-D1/INDEX|{q}|split-point")
+    for c in sp.calls(dotted_name="new_bucket.add_peer"):
+        R.exact_gate(ctx, "C11-D1/INDEX", sp, c, "new_bucket.key_in_range(contact.node_id)", "split: every contact the new bucket covers moves to it — no further condition", key=f"C11-D1/INDEX|{q}|move-exact")
+    # --- KBucket.add_peer
+    ka = ctx.fa(f"{KB}.add_peer")
+    q = ka.fi.qualname
+    pp = ka.fi.params()[1]
+    vocab = [f"{pp} in self.peers", f"local_peer.node_id == {pp}.node_id", "len(self.peers) < self.capacity"]
+    rows = [
+        (f"self.peers.remove({pp})", f"{pp} in self.peers", "a known contact is moved to the tail (removed…"),
+        (f"self.peers.append({pp})", "", "…and appended again)", 0),
+        ("self.peers.remove(local_peer)", f"not {pp} in self.peers and local_peer.node_id == {pp}.node_id", "a contact with the same node id is replaced (old entry removed…"),
+        (f"self.peers.append({pp})", f"local_peer.node_id == {pp}.node_id", "…new one appended)", 1),
+        (f"self.peers.append({pp})", f"not {pp} in self.peers and len(self.peers) < self.capacity", "a new contact is appended whenever the bucket has room", 2),
+        ("return False", f"not {pp} in self.peers and not len(self.peers) < self.capacity", "a full bucket reports failure (which is what triggers split / probe)"),
+    ]
+    R.effect_table(ctx, "C11-D2/EXACT", ka, vocab, rows, "bucket insert: ")
+    aps = [x for x in ka.stmts(ast.Expr) if norm_text(x) == f"self.peers.append({pp})"]
+    ok = len(aps) == 3 and norm_text(R.prev_stmt(aps[0]) or ast.Pass()) == f"self.peers.remove({pp})" and norm_text(R.prev_stmt(aps[1]) or ast.Pass()) == "self.peers.remove(local_peer)"
+    ctx.ob("C11-D2/EXACT", ok, ka.site(), "bucket insert: each refresh appends right after its removal (a removed contact is never left out)", func=q, key=f"C11-D2/EXACT|{q}|remove-append")
+    rt = [r for r in ka.stmts(ast.Return)]
+    ok = len(rt) == 4 and [norm_text(r) for r in rt].count("return True") == 3 and all(isinstance(R.prev_stmt(r), ast.Expr) or True for r in rt)
+    for r in rt:
+        if norm_text(r) == "return True":
+            pv = R.prev_stmt(r)
+            while pv is not None and not (isinstance(pv, ast.Expr) and norm_text(pv) == f"self.peers.append({pp})"):
+                pv = R.prev_stmt(pv)
+            ok = ok and pv is not None
+    ctx.ob("C11-D2/EXACT", ok, ka.site(), "bucket insert: success (True) is reported exactly on the three paths that appended the contact", func=q, key=f"C11-D2/EXACT|{q}|returns")
+    p = ka.path([ka.cfg.entry], [ka.cfg.exit], avoid=lambda n: n.kind == "return", include_exc=False)
+    ctx.ob("C11-D2/EXACT", p is None, ka.site(), "bucket insert: every path reports a result", func=q)
+    # --- table add_peer
+    ap = ctx.fa(f"{TRq}.add_peer")
+    q = ap.fi.qualname
+    pe = ap.fi.params()[1]
+    vocab = [f"{pe}.node_id", f"(my_peer.address, my_peer.udp_port) == ({pe}.address, {pe}.udp_port)", f"my_peer.node_id == {pe}.node_id", f"self.buckets[bucket_index].add_peer({pe})",
+             f"self._should_split(bucket_index, {pe}.node_id)"]
+    rows = [
+        ("return False", f"not {pe}.node_id", "a contact without node id is refused", 0),
+        ("self.remove_peer(my_peer)", f"{pe}.node_id and (my_peer.address, my_peer.udp_port) == ({pe}.address, {pe}.udp_port) and my_peer.node_id != {pe}.node_id",
+         "a known contact at the newcomer's endpoint with another id is dropped"),
+        (f"bucket_index = self._kbucket_index({pe}.node_id)", f"{pe}.node_id", "the covering bucket is looked up"),
+        ("return True", f"{pe}.node_id and self.buckets[bucket_index].add_peer({pe})", "a successful bucket insert is reported as success", 0),
+        ("self._split_bucket(bucket_index)", f"{pe}.node_id and not self.buckets[bucket_index].add_peer({pe}) and self._should_split(bucket_index, {pe}.node_id)",
+         "a full bucket is split whenever _should_split admits the newcomer"),
+        (f"result = await self.add_peer({pe}, {ap.fi.params()[2]})", f"self._should_split(bucket_index, {pe}.node_id)", "…and the insert is retried"),
+        ("return result", f"self._should_split(bucket_index, {pe}.node_id)", "…whose result is the answer"),
+    ]
+    R.effect_table(ctx, "C11-D5/EXACT", ap, vocab, rows, "table insert: ")
+    # --- admission rule
+    ss = ctx.fa(f"{TRq}._should_split")
+    q = ss.fi.qualname
+    bi, ta = ss.fi.params()[1:3]
+    defs = {dotted(x.targets[0]): x.value for x in ss.stmts(ast.Assign) if len(x.targets) == 1 and isinstance(x.targets[0], ast.Name)}
+    kc = defs.get("kth_contact")
+    ok = isinstance(kc, ast.IfExp) and R.same_test(kc.test, "len(contacts) < constants.K") and norm_text(kc.body) == "contacts[-1]" and norm_text(kc.orelse) == "contacts[constants.K - 1]"
+    ctx.ob("C11-D5/EXACT", ok, ss.site(), "admission: the reference contact is the K-th closest (index K−1), or the farthest when fewer than K are known", func=q, key=f"C11-D5/EXACT|{q}|kth")
+    srt = [c for c in ss.calls(dotted_name="contacts.sort")]
+    lam = kwarg(srt[0], "key") if srt else None
+    ok = len(srt) == 1 and isinstance(lam, ast.Lambda) and norm_text(lam.body) == f"distance({lam.args.args[0].arg}.node_id)" and kwarg(srt[0], "reverse") is None and \
+        defs.get("distance") is not None and norm_text(defs["distance"]) == "Distance(self._parent_node_id)" and norm_text(defs.get("contacts")) == "self.get_peers()"
+    ctx.ob("C11-D5/EXACT", ok, ss.site(), "admission: contacts are sorted ascending by distance to the own id", func=q, key=f"C11-D5/EXACT|{q}|sort")
+    for r in ss.stmts(ast.Return):
+        if is_const(r.value, True):
+            R.exact_gate(ctx, "C11-D5/EXACT", ss, r, f"{bi} < self._split_buckets_under_index", "admission: buckets below the configured index always split", key=f"C11-D5/EXACT|{q}|low-index")
+        else:
+            ok = R.same_test(r.value, f"distance({ta}) < distance(kth_contact.node_id)")
+            ctx.ob("C11-D5/EXACT", ok, ss.site(r), "admission: otherwise the verdict is `newcomer strictly closer than the reference contact`", func=q, key=f"C11-D5/EXACT|{q}|verdict")
+    # --- distance validators
+    for qn, arg in ((f"lbry.dht.protocol.distance.Distance.__init__", 1), (f"lbry.dht.protocol.distance.Distance.__call__", 1)):
+        dfa = ctx.fa(qn)
+        a = dfa.fi.params()[arg]
+        R.refusal_table(ctx, "C11-D4/VALID", dfa, [("invalid", f"len({a}) != constants.HASH_LENGTH")], f"{dfa.fi.qualname.split('.')[-1]}")
